@@ -245,6 +245,27 @@ fn large_then_error() -> InputFam {
     }
 }
 
+
+/// many tags that each span the whole 16-bit frame range (the range fields are not sizes: nothing may be
+/// reserved per frame of a range)
+fn wide_tags() -> InputFam {
+    let shapes: Vec<(usize, u8, bool)> = vec![(200, 0, false), (600, 2, false), (2000, 2, false), (2000, 1, true), (65535, 2, false)];
+    let shapes = Arc::new(shapes);
+    let s2 = shapes.clone();
+    InputFam {
+        name: "wide-tags".into(),
+        what: "one tags chunk with 200 / 600 / 2000 / 65535 tags each spanning frames 0..=65535 (forward / reverse / ping-pong), in a file with 1 frame or with 65535 frames".into(),
+        n: shapes.len(),
+        gen: Box::new(move |i| {
+            let (n, dir, many_frames) = shapes[i];
+            let mut f = gen::file(2, 2, &Fmt::Rgba, &vec![1u16; if many_frames { 65535 } else { 1 }]);
+            f.frames[0].push(tags((0..n).map(|k| Tag { repeat: (k % 5) as u16, ..Tag::new("t", 0, 65535, dir) }).collect()));
+            f.encode()
+        }),
+        label: Box::new(move |i| format!("{} tags 0..=65535 dir={} frames={}", s2[i].0, s2[i].1, if s2[i].2 { 65535 } else { 1 })),
+    }
+}
+
 fn bombs(thorough: bool) -> InputFam {
     let mut makers: Vec<(String, Box<dyn Fn() -> Vec<u8> + Sync + Send>)> = Vec::new();
     let sizes: Vec<usize> = if thorough { vec![1 << 20, 16 << 20, 64 << 20, 512 << 20] } else { vec![1 << 20, 16 << 20, 64 << 20] };
@@ -507,7 +528,7 @@ fn cross_load(ctx: &Ctx, worst: &AtomicU64) {
 pub fn run(ctx: &Ctx) -> i32 {
     let thorough = ctx.tier == Tier::Thorough;
     let bases = based_files(false);
-    let mut fams: Vec<InputFam> = vec![inflate_family(&bases), entity_pairs(&bases), large_then_error(), bombs(thorough), dense(thorough), links_to_big(thorough)];
+    let mut fams: Vec<InputFam> = vec![inflate_family(&bases), entity_pairs(&bases), large_then_error(), wide_tags(), bombs(thorough), dense(thorough), links_to_big(thorough)];
     // the C04 corruption families under the memory oracle as well (byte sweeps only in thorough)
     for f in all_families(ctx.tier) {
         if (f.name.starts_with("M1") && !thorough) || f.name == "M2-structural-big" {
